@@ -3,14 +3,17 @@ on testsystem monitored against the accounting invariant."""
 import itertools
 
 PID = "C14"
-SUBS = ["C14", "C14live"]
-PARALLEL = {"C14live": 8}
+SUBS = ["C14", "C14live", "C14e2e"]
+PARALLEL = {"C14live": 8, "C14e2e": 8}
 RETRY_FLAKY = ("C14live",)
 RULE = ("schedule(): every configuration of <=3 (quick) / <=4 (thorough) requests with priority<=2, procs 1..4 and <=3 machines "
         "with capacity<=4, load<=capacity, built by heap.Push in the listed order (exhaustive), plus random larger ones; "
         "live manager: random offer/cancel/done(ok|remote|transport)/kill-machine sequences for machine sizes 1..4, max-load in "
         "{0,30,50,95,100,150}% and parallelism 1..12, observed at quiescence after every op and monitored by the Lean "
-        "oracle (accounting, capacity, probation, nothing-grantable-left-waiting, machine-count bound); "
+        "oracle (accounting, capacity, probation, nothing-grantable-left-waiting, machine-count bound); C14e2e: sessions on "
+        "clusters of 1-, 2- and 4-proc machines (max load 50..100%) running programs whose Maps carry Procs(1..8) and Exclusive "
+        "pragmas (more procs than a machine has, several invocations, results reused), rows judged as C01 and, once everything "
+        "has completed, every machine that holds a task must have exactly 0 procs booked; "
         "non-trivial = some request does not fit the first machine / sequence contains done or cancel")
 TRUST = ["container/heap pops a Less-minimal element (ties arbitrary)", "bigmachine testsystem starts machines on request",
          "quiescence is detected by a 40ms-stable snapshot (timing assumption of the harness, not of the theorem)"]
@@ -18,7 +21,40 @@ ASSUMPTIONS = ["goroutine scheduling of the manager loop is observed only at qui
                "exit-path pairing of m.Done in (*bigmachineExecutor).Run is checked by T2 facts, not by the event model"]
 
 
+def gen_e2e(r, tier):
+    rows = "1:1 2:2 3:3 4:4 5:5 6:6 7:7 8:8 9:9"
+    n = 40 if tier == "quick" else 800
+    for i in range(n):
+        cfg = "bm M%d P%d L%d" % (r.choice([1, 2, 2, 4]), r.choice([1, 2, 4, 6]), r.choice([50, 95, 100]))
+        ops = []
+        nres = 0
+        for _ in range(r.rng(1, 3)):
+            nsh = r.rng(1, 4)
+            stmts = ["N0=const %d %s" % (nsh, rows)] if nres == 0 or r.chance(1, 2) else ["N0=map R%d id" % r.below(nres)]
+            for k in range(r.rng(1, 3)):
+                src = "N%d" % (len(stmts) - 1)
+                kind = r.below(10)
+                if kind < 5:
+                    stmts.append("N%d=mapp %s %s %d" % (len(stmts), src, r.choice(["inc", "id"]), r.choice([1, 2, 3, 4, 5, 8])))
+                elif kind < 7:
+                    stmts.append("N%d=mapx %s id" % (len(stmts), src))
+                elif kind < 9:
+                    stmts.append("N%d=reduce %s add" % (len(stmts), src))
+                else:
+                    stmts.append("N%d=reshuffle %s" % (len(stmts), src))
+            ops.append("run %s ; OUT N%d" % (" ; ".join(stmts), len(stmts) - 1))
+            nres += 1
+            if r.chance(1, 2):
+                ops.append("procs")
+        if ops[-1] != "procs":
+            ops.append("procs")
+        yield cfg + " ;; " + " ;; ".join(ops)
+
+
 def gen(r, tier, sub):
+    if sub == "C14e2e":
+        yield from gen_e2e(r, tier)
+        return
     if sub == "C14":
         nreq = 3 if tier == "quick" else 4
         reqs = [(p, n) for p in range(0, 3) for n in range(1, 5)]
@@ -81,12 +117,16 @@ def gen(r, tier, sub):
 
 
 def nontrivial(case, obs):
+    if ";;" in case:
+        return "mapp" in case or "mapx" in case
     if case.startswith("R"):
         return obs != "none" or " M " in case
     return "done" in case or "cancel" in case
 
 
 def shrink_candidates(case):
+    if ";;" in case:
+        return
     if case.startswith("R"):
         toks = case.split()
         for i in range(len(toks)):
@@ -115,6 +155,25 @@ def t2(chk, wc, tier, seed):
     ties.append(("procs_returned_once",
                  "theorem procs_returned_once : runExitPaths ≠ [] ∧ ∀ p ∈ runExitPaths, p.2 = 1 := by decide",
                  "exec/bigmachine.go (*bigmachineExecutor).Run: m.Done on every exit path"))
+    # (a') the amount handed back is the amount that was asked for: the procs argument of mgr.Offer and of every m.Done
+    import re
+    src = open(wc.repo + "/exec/bigmachine.go").read()
+    body = src[src.index("func (b *bigmachineExecutor) Run("):]
+    body = body[:body.index("\n}\n")]
+    offer = re.findall(r"mgr\.Offer\(([^\n]*)\)\s*$", body, re.M)
+    offer_arg = offer[0].rsplit(",", 1)[1].strip() if offer and "," in offer[0] else "?"
+    done_args = [a.strip() for a in re.findall(r"m\.Done\(([^,\n]*),", body)]
+    after = body[body.index("mgr.Offer("):] if "mgr.Offer(" in body else ""
+    reassigned = len(re.findall(r"(?m)^\s*%s\s*(=|\+=|-=|:=)[^=]" % re.escape(offer_arg), after)) if re.fullmatch(r"\w+", offer_arg) else 1
+    gen.append('def offerArgG : String := "%s"' % offer_arg.replace('"', "'"))
+    gen.append("def doneArgsG : List String := [%s]" % ", ".join('"%s"' % a.replace('"', "'") for a in done_args))
+    gen.append("def offerArgReassignedG : Nat := %d" % reassigned)
+    gen.append("def offerArgIsVariableG : Nat := %d" % (1 if re.fullmatch(r"[A-Za-z_]\w*", offer_arg) else 0))
+    ties.append(("procs_same_amount",
+                 "theorem procs_same_amount : doneArgsG ≠ [] ∧ (∀ a ∈ doneArgsG, a = offerArgG) ∧ "
+                 "offerArgIsVariableG = 1 ∧ offerArgReassignedG = 0 := by decide",
+                 "exec/bigmachine.go (*bigmachineExecutor).Run: the variable passed to mgr.Offer is the one passed to every m.Done, and is "
+                 "not assigned in between"))
     # (b) the two heap orders
     for fn, name in (("scheduleRequestQ.Less", "reqLessG"), ("machineQ.Less", "machLessG")):
         rc, out, err = vlib.gofacts(wc, "kernel", "exec/slicemachine.go", fn, name)
